@@ -20,8 +20,8 @@ def _solve_one(job):
         use_cvc5 = False
     try:
         s = z3.Solver()
-        # string VCs: z3's sequence solver is unstable on identical input; give it a short first try, then cvc5, then z3 again
-        first_budget = 5000 if quick else (15000 if (strings and use_cvc5) else Z3_TIMEOUT_MS)
+        # z3 is unstable on identical input (sequence solver; nonlinear sector arithmetic): a short first try, then cvc5, then z3 again
+        first_budget = 5000 if quick else (15000 if use_cvc5 else Z3_TIMEOUT_MS)
         s.set("timeout", first_budget)
         s.from_string(smt2)
         r = s.check()
@@ -48,7 +48,7 @@ def _solve_one(job):
                 info += " | cvc5: " + (out or p.stderr.strip()[:200])
         except Exception as e:  # noqa
             info += " | cvc5 error " + repr(e)
-    if res in ("unknown", "error") and strings and not quick and use_cvc5:
+    if res in ("unknown", "error") and not quick and use_cvc5:
         try:
             s = z3.Solver()
             s.set("timeout", Z3_TIMEOUT_MS)
